@@ -485,6 +485,14 @@ static void run_token(const char* t) {
   if (t[0] == 'F') { g_fail_at = atoi(t + 1);
     { char c = t[strlen(t) - 1]; g_fail_errno = c == 'n' ? ENFILE : c == 'm' ? ENOMEM : EMFILE; } return; }
   if (t[0] == 'N') { g_nofd = atoi(t + 1); return; }
+  if (t[0] == 'D') {            /* D<fd>: the caller replaces descriptor fd by a UDP socket of its own */
+    int fd = atoi(t + 1), sk = __real_socket(AF_INET, SOCK_DGRAM, 0);
+    close(fd); if (fd < MAXFD) tab[fd] = ST_NONE; OUT("{ }uf:%d=0 ", fd);
+    if (sk >= 0 && sk != fd) { __real_dup2(sk, fd); close(sk); }
+    if (fd < MAXFD) tab[fd] = ST_USER;
+    OUT("{ }ua:%d:0=0 ", fd);
+    return;
+  }
   if (t[0] == 'Z') { int fd = atoi(t + 1); close(fd); if (fd < MAXFD) tab[fd] = ST_NONE; OUT("{ }uf:%d=0 ", fd); return; }
 
   if (!strcmp(t, "Li")) {
@@ -803,7 +811,7 @@ static void run_token(const char* t) {
       int fd = source_fd(arg, desc, sizeof desc);
       BEGIN(); rc = uv_udp_open((uv_udp_t*) hs[h], fd); END("op:%d:%s:%d=%d", midx[h], desc, rc == 0, rc);
       if (rc == 0 && arg[0] == 'g') given[atoi(arg + 1)] = -1;
-      if (rc == 0 && fd >= 0 && fd < MAXFD) tab[fd] = ST_LIBUV;
+      if (rc == 0 && fd > 2 && fd < MAXFD) tab[fd] = ST_LIBUV;    /* 0-2 stay the caller's */
       return;
     }
     break;
